@@ -35,13 +35,15 @@ func registerTokenizer(in *Interp) {
 	}
 	M["(*"+hp+"Tokenizer).Next"] = func(in *Interp, st *State, cc *ssa.CallCommon, args []Value) []Alt {
 		p := args[0].(Ptr)
-		mk := func(kind string, nattr int, errIs string) Alt {
+		mk := func(kind string, nattr int, errIs string, name string) Alt {
 			return Alt{Ret: smt.IntC(int64(tokenKindCode[kind])), Eff: func(st *State) {
 				tz := st.Heap[p.Obj].(*tokzObj)
 				idx := len(st.Tokens)
 				ti := &TokenInfo{Kind: kind, ErrIs: errIs}
 				pre := fmt.Sprintf("tok%d", idx)
-				if kind != "Error" {
+				if name != "" {
+					ti.Data = smt.StrC(name)
+				} else if kind != "Error" {
 					ti.Data = st.fresh(pre+".data", smt.String)
 					switch kind {
 					case "StartTag", "EndTag", "SelfClosing":
@@ -62,9 +64,16 @@ func registerTokenizer(in *Interp) {
 			}}
 		}
 		var alts []Alt
-		alts = append(alts, mk("Error", 0, "EOF"), mk("Error", 0, "other"), mk("Text", 0, ""), mk("EndTag", 0, ""), mk("Comment", 0, ""), mk("Doctype", 0, ""))
-		for n := 0; n <= in.Cfg.MaxAttrs; n++ {
-			alts = append(alts, mk("StartTag", n, ""), mk("SelfClosing", n, ""))
+		alts = append(alts, mk("Error", 0, "EOF", ""), mk("Error", 0, "other", ""), mk("Text", 0, "", ""), mk("Comment", 0, "", ""), mk("Doctype", 0, "", ""))
+		names := in.Cfg.TokenNames
+		if len(names) == 0 {
+			names = []string{""}
+		}
+		for _, nm := range names {
+			alts = append(alts, mk("EndTag", 0, "", nm))
+			for n := 0; n <= in.Cfg.MaxAttrs; n++ {
+				alts = append(alts, mk("StartTag", n, "", nm), mk("SelfClosing", n, "", nm))
+			}
 		}
 		return alts
 	}
